@@ -232,7 +232,7 @@ fn run(args: &Args, rep: &mut Report) {
     let n_g = inputs.len();
     inputs.extend(sample_values(rt::derive_seed(args.seed, "big-osc", 0), n_big, &big_osc()));
     // fixed boundary inputs
-    for len in [1022usize, 1023, 1024, 1025, 1026, 2048, 5000] {
+    for len in [1022usize, 1023, 1024, 1025, 1026, 2048, 5000, 65_535, 65_536, 65_537, 70_000] {
         for seps in [0usize, 1, 15, 16, 17, 40] {
             let mut v = b"\x1b]".to_vec();
             for i in 0..len {
@@ -245,6 +245,17 @@ fn run(args: &Args, rep: &mut Report) {
             inputs.push(v);
         }
     }
+    // text runs and a DCS payload beyond 64 KiB, each followed by ordinary sequences
+    for len in [65_535usize, 65_536, 65_537, 131_073] {
+        let mut v = b"\x1b[1m".to_vec();
+        v.extend(std::iter::repeat(b'x').take(len));
+        v.extend_from_slice(b"\x1b]0;t\x07\x1b[0my");
+        inputs.push(v);
+        let mut v = b"\x1bP1;2q".to_vec();
+        v.extend((0..len).map(|i| b'a' + (i % 26) as u8));
+        v.extend_from_slice(b"\x1b\\z\x1b]k;v\x1b\\");
+        inputs.push(v);
+    }
     let logs = match run_workers(&inputs) {
         Ok(l) => l,
         Err(m) => {
@@ -252,7 +263,7 @@ fn run(args: &Args, rep: &mut Report) {
             return;
         }
     };
-    let mut parts = [(0usize, n_g, "grammar-7bit", "7-bit G-STREAM inputs"), (n_g, inputs.len(), "boundary-osc", "OSC payloads of 1000..1100 bytes with separators at boundary positions + fixed boundary inputs")];
+    let mut parts = [(0usize, n_g, "grammar-7bit", "7-bit G-STREAM inputs"), (n_g, inputs.len(), "boundary-osc", "OSC payloads of 1000..1100 bytes with separators at boundary positions + fixed boundary inputs (payloads of 1022..1026, 2048, 5000 and 65535..70000 bytes x 0..40 separators; text runs and DCS payloads of 65535..131073 bytes)")];
     for (lo, hi, name, bound) in parts.iter_mut() {
         let mut acc = Acc::new();
         let mut seen = std::collections::HashSet::new();
